@@ -876,6 +876,10 @@ impl Model for HistoryModel {
                 specs.push(vec![ResumptionPsk(w.g(by).current_epoch())]);
                 specs.push(vec![Gce(depth as u8 + 1)]);
                 specs.push(vec![Custom(1)]);
+                if self.mon.external {
+                    // the observer must follow a re-init commit too (the group is frozen afterwards)
+                    specs.push(vec![ReInit]);
+                }
             }
             for props in specs {
                 if s.deviations < self.max_deviations {
